@@ -234,3 +234,13 @@ Definition dec_ru2_pinned (fuel : nat) (v : gval) : res wru2 :=
       Ok (mkWRu2 ini ins mo de)
   | _ => Err EOther
   end.
+
+(** what a monitor request selects (MonitorSelect.Initial/Insert/Delete/Modify of
+    ovsdb/monitor_select.go): a member that is absent - or a request without a
+    select - stands for "yes" *)
+Definition sel_flag (o : option bool) : bool := match o with Some b => b | None => true end.
+Definition sel_kinds (s : option wselect) : bool * bool * bool * bool :=
+  match s with
+  | None => (true, true, true, true)
+  | Some s => (sel_flag (ms_initial s), sel_flag (ms_insert s), sel_flag (ms_delete s), sel_flag (ms_modify s))
+  end.
